@@ -491,3 +491,17 @@ M("TWIN-shifted-backward-sweep", {"C01": None, "C15": None, "C07": None},
 M("TWIN-round-index-renamed", {"C09": None, "C14": None, "C20": None},
   ("main_loop.py", "        for current_iteration in range(current_model_state.arguments.iteration_limit):\n            LOGGER.info(\"TICC: Beginning iteration %d\", current_iteration)\n\n            if current_iteration > 0:",
    "        for round_index in range(current_model_state.arguments.iteration_limit):\n            LOGGER.info(\"TICC: Beginning iteration %d\", round_index)\n\n            if round_index >= 1:"))
+
+# ---------------------------------------------------------------- benign feature additions (must stay silent everywhere relevant)
+_ALLP = {p: None for p in ["C01", "C03", "C04", "C06", "C07", "C08", "C09", "C10", "C12", "C14", "C18", "C19", "C20"]}
+M("TWIN-frontend-input-validation", dict(_ALLP),
+  ("front_end.py", "    params = arguments.UserArguments(\n        window_size=window_size,", "    if window_size < 1:\n        raise ValueError(\"window_size must be at least 1\")\n    if num_clusters < 1:\n        raise ValueError(\"num_clusters must be at least 1\")\n\n    params = arguments.UserArguments(\n        window_size=window_size,"))
+M("TWIN-frontend-asarray", dict(_ALLP),
+  ("front_end.py", "    # The user may have provided a forward-only iterable.  We need to\n    # traverse it multiple times, so make it a list.\n    data_series = list(data_series)\n", "    # The user may have provided a forward-only iterable.  We need to\n    # traverse it multiple times, so make it a list.\n    data_series = [series for series in data_series]\n"))
+M("TWIN-mainloop-extra-logging", dict(_ALLP),
+  ("main_loop.py", "            current_model_state = cluster_maintenance.update_all_cluster_statistics(\n", "            LOGGER.debug(\"round %d: %d labels\", current_iteration, len(current_model_state.point_labels))\n            current_model_state = cluster_maintenance.update_all_cluster_statistics(\n"))
+M("TWIN-keyboard-interrupt-note", dict(_ALLP),
+  ("main_loop.py", "    except BaseException:\n        # Do not leave worker processes behind when a round fails\n        task_pool.terminate()\n        task_pool.join()\n        raise\n",
+   "    except BaseException as failure:\n        # Do not leave worker processes behind when a round fails\n        LOGGER.debug(\"TICC main loop aborted: %r\", failure)\n        task_pool.terminate()\n        task_pool.join()\n        raise\n"))
+M("TWIN-result-timing-field-free", dict(_ALLP),
+  ("main_loop.py", "    num_data_points = stacked_training_data.shape[0]\n", "    num_data_points = stacked_training_data.shape[0]\n    LOGGER.debug(\"fitting %d stacked points\", num_data_points)\n"))
